@@ -73,14 +73,25 @@ class PureAbstraction:
         self.low, self.g = low, g
         self.arg_leaves = []      # C lvalues inside g's contract
         self.arg_types = []
-        for pn, pt in g.params:
+        self.arg_of = {}
+        for i, (pn, pt) in enumerate(g.params):
+            if g.kind == 'ctor' and i == 0:
+                continue
             vt = pt[1] if pt[0] == 'ptr' else pt
             ls = cleaves(low, pn, vt, arrow=(pt[0] == 'ptr'))
+            self.arg_of[pn] = (len(self.arg_leaves), len(ls))
             self.arg_leaves += ls
             self.arg_types += replay.leaf_types(low, vt)
         rt = g.ret
-        self.ret_types = replay.leaf_types(low, rt) if rt != ('void',) else []
-        self.ret_leaves = cleaves(low, '__CPROVER_return_value', rt) if rt != ('void',) else []
+        if g.kind == 'ctor':
+            st = g.params[0][1][1]
+            self.ret_types = replay.leaf_types(low, st)
+            self.ret_leaves = cleaves(low, 'self', st, arrow=True)
+            self.frame = '__CPROVER_assigns(*self)'
+        else:
+            self.ret_types = replay.leaf_types(low, rt) if rt != ('void',) else []
+            self.ret_leaves = cleaves(low, '__CPROVER_return_value', rt) if rt != ('void',) else []
+            self.frame = '__CPROVER_assigns()'
 
     def uf(self, i):
         return '__CPROVER_uninterpreted_%s_r%d' % (self.g.cname, i)
@@ -93,7 +104,7 @@ class PureAbstraction:
         return '\n'.join(out) + '\n'
 
     def clauses(self):
-        cl = ['__CPROVER_assigns()']
+        cl = [self.frame]
         args = ', '.join(self.arg_leaves)
         for i, rl in enumerate(self.ret_leaves):
             cl.append('__CPROVER_ensures(%s == %s(%s))' % (rl, self.uf(i), args))
@@ -295,11 +306,14 @@ class IeeeJob:
                 nc = replay.NativeCall(low, f)
                 for k in range(self.search_tries):
                     w = {}
-                    for pn, pt in f.params:
-                        if f.kind == 'ctor' and pn == 'self':
-                            continue
-                        vt = pt[1] if pt[0] == 'ptr' else pt
-                        w[pn] = [self.gen(rnd, lt) for lt in replay.leaf_types(low, vt)]
+                    if getattr(self, 'gen_inputs', None) is not None:
+                        w = self.gen_inputs(rnd)
+                    else:
+                        for pn, pt in f.params:
+                            if f.kind == 'ctor' and pn == 'self':
+                                continue
+                            vt = pt[1] if pt[0] == 'ptr' else pt
+                            w[pn] = [self.gen(rnd, lt) for lt in replay.leaf_types(low, vt)]
                     cpp = nc.program(w, includes=self.includes, extra=self.replay_extra)
                     r, err = replay.build_and_run(cpp, os.path.join(check.work, 'replay'), 's%d_' % k + re.sub(r'[^\w]+', '_', ob.name)[:150])
                     if err:
